@@ -100,8 +100,31 @@ def hostile_cwd(texts):
     return d
 
 
+def run_cli_pty(binary, logic, data, timeout=20):
+    """the data typed at a terminal: standard input is a pseudo-terminal, the text is written followed by a newline and end-of-file (Ctrl-D)"""
+    import pty, select
+    master, slave = pty.openpty()
+    try:
+        p = subprocess.Popen([binary, "--", logic], stdin=slave, stdout=subprocess.PIPE, stderr=subprocess.PIPE, cwd=CLI_CWD)
+        os.close(slave); slave = None
+        os.write(master, data.encode("utf-8") + b"\n\x04")
+        try:
+            out, err = p.communicate(timeout=timeout)
+        except subprocess.TimeoutExpired:
+            p.kill(); p.communicate()
+            return (["<hang>"], None, False)
+    finally:
+        if slave is not None: os.close(slave)
+        os.close(master)
+    lines = out.decode("utf-8", "replace").split("\n")
+    if lines and lines[-1] == "": lines.pop()
+    return (lines, p.returncode, b"panicked" in err or (p.returncode is not None and p.returncode < 0) or p.returncode in (101, 134))
+
+
 def run_cli(binary, logic, data, mode, timeout=20):
     """mode: 'arg' | 'stdin' | 'dash' | 'argfile' (as 'arg', standard output being a regular file); returns (stdout lines, exit status, panicked)"""
+    if mode == "pty":
+        return run_cli_pty(binary, logic, data, timeout)
     if mode == "argfile":
         import tempfile
         with tempfile.NamedTemporaryFile(dir=os.path.join(jl.BUILD, "tmp"), delete=True) as tf:
@@ -184,6 +207,8 @@ def run_c18(ex, g, tier):
         if len(dt) > 100000: modes = ["stdin", "dash"]
         if dt == "": modes = ["stdin", "dash", "arg"]
         if "arg" in modes and ("log" in rt or i % 7 == 0): modes = modes + ["argfile"]
+        if i % 23 == 0 and "\n" not in dt and "\r" not in dt and 0 < len(dt.encode("utf-8")) < 1000 and all(ord(ch) >= 32 and ord(ch) != 127 for ch in dt) and i in expected and expected[i][1]:
+            modes = modes + ["pty"]          # the same data typed at a terminal
         for m in modes:
             jobs.append((i, m))
     global CLI_CWD
@@ -276,6 +301,8 @@ for raw in sys.stdin:
             else: r[:] = t["value"]
             res = jsonlogic_rs.apply(r, t.get("data"))
         elif kind == "apply":
+            import copy
+            before = copy.deepcopy((t["value"], t.get("data")))
             args = [t["value"]] + ([t["data"]] if "data" in t else [])
             kw = {}
             if t.get("ser"): kw["serializer"] = custom_ser
@@ -286,6 +313,8 @@ for raw in sys.stdin:
             kw = {}
             if t.get("de"): kw["deserializer"] = custom_de
             res = jsonlogic_rs.apply_serialized(*args, **kw)
+        if kind == "apply" and repr(before) != repr((t["value"], t.get("data"))):
+            print("differs the call modified the caller's rule or data: " + repr((t["value"], t.get("data")))[:200], flush=True); continue
         if kind != "mutate":
             # the caller edits what it was given back, then asks the same question again (equal, fresh arguments): same answer expected
             first = json.dumps(res, sort_keys=True)
@@ -314,6 +343,11 @@ def py_objects(g, tier):
     for s in specials:
         objs.append(({"var": ""}, s)); objs.append(({"===": [{"var": ""}, False]}, s)); objs.append(({"cat": [{"var": ""}]}, s)); objs.append((s, None)); objs.append(({"+": [s, 1]}, None))
         objs.append(({"!!": [{"var": ""}]}, s)); objs.append(({"var": "a"}, {"a": s}))
+    for nf in (float("nan"), float("inf"), float("-inf")):
+        objs += [({"var": "sensor.readings.1"}, {"sensor": {"readings": [1.5, nf, 2.5]}}), ({"in": [1, [1, nf, 3]]}, None), ({"var": "a"}, {"a": 1, "deep": {"x": [nf]}}), ({"cat": [[nf]]}, None), ({"var": ""}, [[nf]])]
+    for fm in ["about 50%sure", "up to 50% off", "%(name)s", "%s", "%d", "100%", "{}", "{0}", "{name}", "$x", "%%s", "%c", "%5.2f", "%n"]:
+        objs += [({"+": [fm]}, None), ({"*": [2, fm]}, None), ({"substr": [{fm: 1}, 1]}, None), ({"max": [1, fm]}, None), ({"-": [fm, 1]}, None), ({"var": fm}, {fm: 1}), ({fm: [1]}, None), ({"==": [fm]}, None),
+                 ({"in": [1, fm]}, None), ({"cat": [fm, fm]}, None), ({"missing_some": [fm, []]}, None), ({"/": [1, fm]}, None)]
     objs += [({"+": ["x" + "я" * 150, 1]}, None), ({"==": [1]}, None), ({"+": ["x"]}, {"я" * 70: "€" * 70}), ({"var": ["zz", {"var": "a"}]}, {"a": {"var": "zz"}})]
     return objs
 
@@ -514,13 +548,17 @@ def boundary_sample(ex, lines, n=60):
                 tasks.append(dict(kind="apply", value=ro, data=do)); want.append(exp)
         except Exception:
             pass
+    # what a caller hands in is left as it was, also when it cannot be encoded (non-finite floats nested in rule or data)
+    for nf in (float("nan"), float("inf")):
+        for v_, d_ in (({"var": "sensor.readings.0"}, {"sensor": {"readings": [1.5, nf, 2.5]}}), ({"in": [1, [1, [nf], 3]]}, None), ({"var": "a"}, {"a": 1, "deep": {"x": [nf]}})):
+            tasks.append(dict(kind="apply", value=v_, data=d_)); want.append("exc ValueError")
     child = os.path.join(jl.BUILD, "tmp", "py_child.py")
     os.makedirs(os.path.dirname(child), exist_ok=True)
     open(child, "w").write(PY_CHILD)
     data = "".join(json.dumps(t) + "\n" for t in tasks).encode()
     try:
         p = subprocess.run([sys.executable, child, pydir], input=data, stdout=subprocess.PIPE, stderr=subprocess.PIPE, timeout=300)
-        got = [x for x in p.stdout.decode("utf-8", "replace").split("\n") if x.startswith("value ") or x.startswith("exc ")]
+        got = [x for x in p.stdout.decode("utf-8", "replace").split("\n") if x.startswith("value ") or x.startswith("exc ") or x.startswith("differs ")]
     except subprocess.TimeoutExpired:
         got = []
     if len(got) < len(tasks):
